@@ -117,6 +117,30 @@ CLAIMED = {
         "dynamic symbolic execution of the real Python code (vx) + z3, one inductive step per operation",
         "DESIGN.md section 4 C13",
     ),
+    "C01": (
+        "model_checking",
+        "The enabled flag of every model is a symbolic boolean and every model receives symbolic argument terms; the real pyxel.run_mode "
+        "(exposure; sequential observation with a one-value product) runs unmodified and the code's own `if model.enabled` forks enumerate the "
+        "on/off patterns: all 45 group pairs x 2 models (16 patterns each), 3 models inside each of the 10 groups, 8 (quick) / 10 (thorough) "
+        "groups x 1 model (256 / 1024 patterns), 1..3 readouts, debug on/off, pipelines built from Python objects and from mappings with "
+        "group keys reversed / rotated, absent groups as None / [] / missing. Per path the probe trace is compared with the order written "
+        "in the harness from the statement (once per step, disabled never, kwargs terms exact, detector identity).",
+        "YAML text parsing, calibration mode and the dask path are outside; an always-enabled helper model initialises the buckets the real "
+        "exposure loop needs to build its result.",
+        "dynamic symbolic execution of the real Python code (vx) + z3 (Bool/LIA/LRA equalities), path-witness replay",
+        "DESIGN.md section 4 C01",
+    ),
+    "C09": (
+        "model_checking",
+        "The fault point (run, step, model position) is three symbolic integers: every probe raises iff its own coordinates equal it, so the "
+        "solver enumerates every feasible crash point (plus the no-fault path) through the real pyxel.run_mode in exposure and sequential "
+        "observation (3 runs x 1..3 steps x 2..4 models, 6 exception classes) and through ModelFittingDataTree.fitness: the same exception "
+        "object reaches the caller, notes name group and model (and the failing run's parameter values), no result is returned, nothing runs "
+        "after the fault, later runs never start. Solver-found crash points are replayed concretely in the dask path (.load()).",
+        "dask graph execution and pygmo threads are concrete replays only; calibration evolution phases outside.",
+        "dynamic symbolic execution of the real Python code (vx) + z3 LIA (symbolic crash point), concrete replay for dask",
+        "DESIGN.md section 4 C09",
+    ),
 }
 
 NOT_APPLICABLE = {
